@@ -12,6 +12,7 @@
 #include "PyImathFixedArrayTraits.h"
 
 #include <type_traits>
+#include <vector>
 
 namespace PyImath {
 
@@ -106,8 +107,11 @@ class SharedBufferAPI : public BufferAPI<ArrayT>
     bool readOnly() const override
      { return !_orig.writable(); }
 
+    //  A read-only array is exported as a read-only view (see readOnly()),
+    // so its data is addressed without the 'writable' check: direct_index()
+    // would throw through the C buffer callback.
     void *buffer() override
-     { return static_cast<void *> (&_orig.direct_index(0)); }
+     { return static_cast<void *> (&_orig.unchecked_direct_index(0)); }
 
   private:
 
@@ -121,15 +125,23 @@ class SharedBufferAPI : public BufferAPI<ArrayT>
 template <class ArrayT>
 class CopyBufferAPI : public BufferAPI<ArrayT>
 {
+  using T = typename ArrayT::BaseType;
+
   public:
 
     using BufferAPI<ArrayT>::atomicSize;
 
+    //  A private duplicate of the elements: a copy of the FixedArray itself
+    // would share the read-only source's storage (and stay read-only).
     explicit
     CopyBufferAPI (ArrayT &a)
-     : BufferAPI<ArrayT> (a.len(), a.stride()),
-              _copy (a)
-    {}
+     : BufferAPI<ArrayT> (a.len(), 1),
+              _copy (a.len())
+    {
+        const ArrayT &src = a;
+        for (size_t i = 0; i < _copy.size(); ++i)
+            _copy[i] = src.direct_index(i);
+    }
 
     virtual ~CopyBufferAPI() = default;
 
@@ -141,17 +153,17 @@ class CopyBufferAPI : public BufferAPI<ArrayT>
      { return false; }
 
     Py_ssize_t numBytes() const override
-     { return _copy.len() * atomicSize() * FixedArrayWidth<typename ArrayT::BaseType>::value * _copy.stride(); }
+     { return Py_ssize_t (_copy.size()) * atomicSize() * FixedArrayWidth<T>::value; }
 
     bool readOnly() const override
      { return false; }
 
     void *buffer() override
-     { return static_cast<void *> (&_copy.direct_index(0)); }
+     { return static_cast<void *> (_copy.data()); }
 
   private:
 
-    ArrayT _copy;
+    std::vector<T> _copy;
 };
 
 
